@@ -971,9 +971,7 @@ func callBuiltin(caller *frame, fn *ssa.Builtin, args []value) value {
 		for _, e := range src {
 			dst = append(dst, copyVal(e))
 		}
-		if len(src) == 0 && dst == nil && src != nil {
-			dst = []value{}
-		}
+		// (appending nothing to a nil slice gives nil, as in Go)
 		return dst
 
 	case "copy": // copy([]T, []T) int or copy([]byte, string) int
